@@ -35,6 +35,10 @@ CHECKS = {
             "bounded-exhaustive execution of the basis-inverse / basis-multiply queries over (LP family with entries spanning binary orders of magnitude) x representation x scaler x persistent scaling x every regular basis (exact enumeration, installed with setBasis) x every index / unit vector, exact rational reference for B",
             "For every stride-th canonical LP of family P (entries {0,1,3,-16,1/2,8}) and each of the 42 combinations of representation(3) x scaler(7) x persistent scaling(2): optimize() (which installs persistent scaling), then the basis the solve ended with and EVERY regular basis of the LP (from exact enumeration) installed with setBasis; for each: getBasisInd consistent with the statuses, every row and column of the inverse (dense output and scattered output with index list = exactly the nonzeros), getBasisInverseTimesVecReal, multBasis and multBasisTranspose on all unit vectors and on (1..m), compared with exact arithmetic on B assembled from the harness's copy of the LP. unscale=true everywhere; unscale=false where the stored LP is not scaled.",
             "Trusted: rational arithmetic on B. Linear maps are decided by their values on the unit vectors up to rounding (tolerance 1e-9 relative). One genuine defect group (row representation + scaled) is recorded in known_findings.json."),
+    "C04": ("model_checking", "DESIGN.md section 3 C04",
+            "exhaustive enumeration of short API histories that leave a basis (every iteration limit below the unlimited count, every valid status assignment via setBasis, every reduced-alphabet modification) on the real solver; invariant evaluated at every state with hasBasis(); exact regularity test and exact optimum for warm starts",
+            "For every stride-th canonical LP of family Q and 7 parameter vectors: the basis after an unlimited solve (every status), after a solve with ITERLIMIT j for every j below the unlimited iteration count, after setBasis with EVERY valid status assignment (all regular bases from exact enumeration x all admissible nonbasic placements, with the LP inside and outside the solver), after write+readBasisFile and after each reduced-alphabet modification of a solved LP. At every such state: exactly one basic variable per row, admissible nonbasic statuses, per-variable queries == array query == basis-index query, private status mirrors sized like the LP, exact nonsingularity for solve-produced bases, setBasis/getBasis round trip, and warm starts in the same and in a new object reaching the exact status and optimum. Separate phase: exact solves with FORCEBASIC must return exactly the basic solution of the returned basis.",
+            "Trusted: exact oracle and rational determinant. Four genuine defects are recorded in known_findings.json."),
 }
 
 NOT_YET = {}
